@@ -39,6 +39,31 @@ def _table(job):
     return cnt, bad
 
 
+def _tall(job):
+    """Tall-narrow table: many steps, few units (where the planners' long split searches live)."""
+    N, S = job
+    from .. import lib
+    mx = lib.cs_mixed
+    try:
+        tab = lib.quiet(mx.mixed_steps_tabulation, N, S)
+    except Exception as e:
+        return 0, [(N, S, "mixed_steps_tabulation(%d,%d) raised %s: %s" % (N, S, type(e).__name__, e), "n/a")]
+    bad = []
+    cnt = 0
+    for s_i in range(1, S + 1):
+        for n in range(1, N + 1):
+            t = tuple(int(x) for x in tab[n, s_i])
+            try:
+                m = tuple(int(x) for x in lib.quiet(mx.mixed_step_memoization, n, s_i))
+            except Exception as e:
+                bad.append((n, s_i, t, "raise %s" % type(e).__name__))
+                continue
+            cnt += 1
+            if t != m:
+                bad.append((n, s_i, t, m))
+    return cnt, bad[:50]
+
+
 def _stream_pair(job):
     n, s, stg = job
     from .. import monitor
@@ -86,7 +111,15 @@ def run(prop, args):
         return rep.finish()
     tier = args.tier
     N = 100 if tier == "quick" else 200
+    NT, ST = (320, 40) if tier == "quick" else (640, 64)
+    import multiprocessing.pool
+    tall_async = R.pool().apply_async(_tall, ((NT, ST),))
     parts = R.pmap(_table, [(N, lo, min(lo + 3, N)) for lo in range(1, N + 1, 4)], chunksize=1)
+    tall_cnt, tall_bad = tall_async.get(timeout=7200)
+    parts.append((tall_cnt, tall_bad))
+    for n in range(N + 1, NT + 1):
+        for sx in range(2, min(ST, n - 2) + 1):
+            rep.nontrivial.add(("entry", n, sx))
     entries = sum(c for c, _ in parts)
     rep.evaluations += entries
     for n in range(1, N + 1):
@@ -96,13 +129,14 @@ def run(prop, args):
     for _, bad in parts:
         for (n, s, t, m) in bad:
             rep.add_violation(("planner", "table-entry-differs"), {"n": n, "s": s}, "entry (n=%d,s=%d): tabulated %s, memoised %s" % (n, s, t, m), kind="entry")
-    rep.exhaustive = [{"box": "all table entries 1<=n_i<=%d, 1<=s_i<=%d" % (N, N - 1), "cases": entries, "exhaustive": True}]
+    rep.exhaustive = [{"box": "all table entries 1<=n_i<=%d, 1<=s_i<=%d, plus the tall-narrow table 1<=n_i<=%d, 1<=s_i<=%d" % (N, N - 1, NT, ST), "cases": entries, "exhaustive": True}]
     NS = 30 if tier == "quick" else 70
     jobs = [(n, s, stg) for n in range(1, NS + 1) for s in range(min(1, n - 1), n + 2) for stg in ("RAM", "DISK")]
     from hypothesis import strategies as st
     extra = C.generate(st.tuples(st.integers(NS + 1, 100 if tier == "quick" else 250), st.integers(1, 12), st.sampled_from(["RAM", "DISK"])),
                        30 if tier == "quick" else 300, args.seed)
     jobs += sorted(set((n, min(s, n), g) for n, s, g in extra))
+    jobs += [(n, sx, "DISK") for n in (207, 256, 257, 300) for sx in (3, 18, 24)]
     res = R.pmap(_stream_pair, jobs)
     rep.exhaustive.append({"box": "streams on both planner paths, n<=%d, every s, both storages" % NS, "cases": len(jobs) - len(set(extra)), "exhaustive": True})
     for out in res:
